@@ -40,6 +40,9 @@ S_EMPTY = z3.Const('S_empty', Str)
 c_isdigit = z3.Function('c_isdigit', IntS, BoolS)
 c_isalpha = z3.Function('c_isalpha', IntS, BoolS)
 c_isupper = z3.Function('c_isupper', IntS, BoolS)
+c_islower = z3.Function('c_islower', IntS, BoolS)
+c_isspace = z3.Function('c_isspace', IntS, BoolS)
+c_isalnum = z3.Function('c_isalnum', IntS, BoolS)
 c_upper1 = z3.Function('c_upper1', IntS, Str)      # str.upper() of a 1-char string
 
 
@@ -364,6 +367,11 @@ def _base_axioms():
                                                 sch(sslice(s, a, b), i) == sch(s, a + i)),
                         patterns=[sch(sslice(s, a, b), i)]))
     ax.append(z3.ForAll([s], sslice(s, 0, slen(s)) == s, patterns=[sslice(s, 0, slen(s))]))
+    c2, d2 = z3.Ints('c2 d2')
+    # a slice of a slice is a slice of the underlying string
+    ax.append(z3.ForAll([s, a, b, c2, d2], z3.Implies(z3.And(0 <= a, a <= b, b <= slen(s), 0 <= c2, c2 <= d2, d2 <= b - a),
+                                                     sslice(sslice(s, a, b), c2, d2) == sslice(s, a + c2, a + d2)),
+                        patterns=[sslice(sslice(s, a, b), c2, d2)]))
     ax.append(z3.ForAll([s, t], slen(scat(s, t)) == slen(s) + slen(t), patterns=[scat(s, t)]))
     ax.append(z3.ForAll([s, t, i], z3.Implies(z3.And(0 <= i, i < slen(s) + slen(t)),
                                              sch(scat(s, t), i) == z3.If(i < slen(s), sch(s, i), sch(t, i - slen(s)))),
@@ -585,6 +593,22 @@ def list_axioms():
             out.append(z3.ForAll([l, a, x, j], z3.Implies(z3.And(ok, 0 <= j, j <= sh.len(l)),
                                                          z3.Select(sh.arr(r), j) == z3.If(j < a, z3.Select(sh.arr(l), j),
                                                                                           z3.If(j == a, x, z3.Select(sh.arr(l), j - 1)))),
+                                 patterns=[z3.Select(sh.arr(r), j)]))
+        elif name == 'ldel':
+            r = f(l, a)
+            ok = z3.And(0 <= a, a < sh.len(l))
+            out.append(z3.ForAll([l, a], z3.Implies(ok, sh.len(r) == sh.len(l) - 1), patterns=[f(l, a)]))
+            out.append(z3.ForAll([l, a, j], z3.Implies(z3.And(ok, 0 <= j, j < sh.len(l) - 1),
+                                                      z3.Select(sh.arr(r), j) == z3.If(j < a, z3.Select(sh.arr(l), j), z3.Select(sh.arr(l), j + 1))),
+                                 patterns=[z3.Select(sh.arr(r), j)]))
+        elif name == 'lsplice':
+            r = f(l, a, m)
+            ok = z3.And(0 <= a, a <= sh.len(l), sh.len(m) >= 0)
+            out.append(z3.ForAll([l, a, m], z3.Implies(ok, sh.len(r) == sh.len(l) + sh.len(m)), patterns=[f(l, a, m)]))
+            out.append(z3.ForAll([l, a, m, j], z3.Implies(z3.And(ok, 0 <= j, j < sh.len(l) + sh.len(m)),
+                                                         z3.Select(sh.arr(r), j) == z3.If(j < a, z3.Select(sh.arr(l), j),
+                                                                                          z3.If(j < a + sh.len(m), z3.Select(sh.arr(m), j - a),
+                                                                                                z3.Select(sh.arr(l), j - sh.len(m))))),
                                  patterns=[z3.Select(sh.arr(r), j)]))
         elif name == 'lcat':
             r = f(l, m)
